@@ -22,8 +22,10 @@ def add_failure(out, kind, what, inp, expected, got, confirmed=True, sig=None, *
     _add_failure(out, kind, what, inp, expected, got, confirmed=confirmed, sig=sig, **kw)
 
 PROP = "C07"
-PROPS_FILES = ["CogentModel/Props/C07.lean", "CogentModel/Props/C07Lf.lean", "CogentModel/Props/C07Rules2.lean"]
-LEAN_TARGETS = ["CogentModel.Props.C07", "CogentModel.Props.C07Lf", "CogentModel.Props.C07Rules2"]
+PROPS_FILES = ["CogentModel/Props/C07.lean", "CogentModel/Props/C07Lf.lean", "CogentModel/Props/C07Rules2.lean",
+               "CogentModel/Props/C07Gen.lean"]
+LEAN_TARGETS = ["CogentModel.Props.C07", "CogentModel.Props.C07Lf", "CogentModel.Props.C07Rules2",
+                "CogentModel.Props.C07Gen"]
 DRIVER = "drv_c07"
 TRUSTED = [
     "hand-written model lean/CogentModel/Model/Calculator.lean of recalculation.calculation.Calculator "
@@ -43,6 +45,30 @@ ASSUMPTIONS = [
 ]
 
 STEP_KEYS = ("last", "cur", "undo", "sw", "ret", "raised")
+
+
+def generate(ctx):
+    """translator step: rewrite lean/CogentModel/Gen/C07Rules.lean from the CURRENT source of
+    recalculation/scope.py and evolve/parameter_controller.py (content-addressed: unchanged source gives
+    byte-identical text and lake does no work).  Props/C07Gen.lean proves every generated definition equal
+    to the hand model for all arguments, so a semantic edit of the translated functions breaks a proof."""
+    import sys
+
+    from .common import LEAN, SRC, VERIF
+
+    sys.path.insert(0, str(VERIF))
+    from translator import c07_rules2lean as T
+
+    try:
+        lean, info, problems = T.translate(SRC)
+    except (T.Unsupported, SyntaxError, OSError) as e:
+        return [f"c07_rules2lean: {type(e).__name__}: {e}"]
+    ctx.notes.append("c07_rules2lean translated: " + "; ".join(t.split(":")[0] for t in info.get("translated", [])))
+    if lean is not None:
+        if T.write_if_changed(LEAN / "CogentModel" / "Gen" / "C07Rules.lean", lean):
+            ctx.notes.append("Gen/C07Rules.lean was rewritten (the translated python statements differ from the last "
+                             "generated text)")
+    return [f"c07_rules2lean: {p}" for p in problems]
 
 
 # --------------------------------------------------------------------------
